@@ -12,7 +12,8 @@ CONSTANTS
   MAXRES = 100
   STAMPCHECK = FALSE
   ACSTAMPCHECK = TRUE
-INVARIANTS Linearizable NoDeadlock ResizeSafe QuiescentOK ReadersNeverBlock
+  TRAVOFF = 0
+INVARIANTS Linearizable NoDeadlock ResizeSafe QuiescentOK ReadersNeverBlock IterWeak GhostOK
 PROPERTY NeverShrinks
 VIEW view
 CHECK_DEADLOCK FALSE
